@@ -483,7 +483,7 @@ theorem rerun_role_moved_away (pre : List Bool) : releaseAfterRuns (pre ++ [fals
 
 /-- the library is told the OLD threshold of the start parameters for the old sharing and the process's own NEW
     threshold for the new one — whatever their order (raising, lowering, equal). Definitional (`rfl`): it documents the
-    model; that the CODE passes these arguments is Oblig/C08 `gen_reshare_args` and op `reshareparams` -/
+    model; that the CODE passes these arguments is Oblig/C08 `gen_reshare_roles` and op `reshareparams` -/
 theorem reshareParams_thresholds (kp store : List Peer) (thr nthr : Int) :
     (reshareParams (startParams kp thr store) nthr store).oldThreshold = thr ∧
     (reshareParams (startParams kp thr store) nthr store).newThreshold = nthr ∧
@@ -587,6 +587,39 @@ theorem signingRunStore_current (self : Peer) (st : PartyStore) (subset : List P
 theorem storedAtEnd_committee (old old' store : List Peer) (nthr : Int) :
     storedAtEnd old nthr store = (nthr, store) ∧ storedAtEnd old nthr store = storedAtEnd old' nthr store :=
   ⟨rfl, rfl⟩
+
+/-! ### the session starts with threshold+1 DISTINCT key holders -/
+
+private theorem initiateFrom_nodup (kp : List Peer) (thr : Int) (excl : List Peer) (ws acc r : List Peer)
+    (hacc : acc.Nodup) (h : initiateFrom kp thr excl acc ws = some r) : r.Nodup ∧ ready kp thr r = true := by
+  induction ws generalizing acc with
+  | nil => simp [initiateFrom] at h
+  | cons w ws ih =>
+    simp only [initiateFrom] at h
+    have hacc' : (if !excl.contains w && !acc.contains w then acc ++ [w] else acc).Nodup := by
+      split
+      · next hc =>
+        simp only [Bool.and_eq_true, Bool.not_eq_eq_eq_not, Bool.not_true, List.contains_eq_mem,
+          decide_eq_false_iff_not] at hc
+        rw [List.nodup_append]
+        exact ⟨hacc, by simp, by intro a ha b hb; simp at hb; subst hb; intro e; exact hc.2 (e ▸ ha)⟩
+      · exact hacc
+    generalize (if !excl.contains w && !acc.contains w then acc ++ [w] else acc) = acc' at h hacc'
+    by_cases hr : ready kp thr acc' = true
+    · rw [if_pos hr] at h; cases h; exact ⟨hacc', hr⟩
+    · rw [if_neg hr] at h; exact ih _ hacc' h
+
+/-- **no relayer is counted twice.** Whatever the order of the `ready` answers and however often a relayer repeats its
+    answer (the initiate message is re-broadcast every period), the list the coordinator starts the session from has no
+    repeats and contains exactly threshold+1 holders of the key: threshold+1 DISTINCT key holders sign -/
+theorem initiate_distinct_holders (self : Peer) (kp : List Peer) (thr : Int) (excl answers r : List Peer)
+    (h : initiate self kp thr excl answers = some r) :
+    r.Nodup ∧ ((r.filter (kp.contains ·)).length : Int) = thr + 1 := by
+  have := initiateFrom_nodup kp thr excl answers [self] r (by simp) h
+  exact ⟨this.1, (ready_iff kp r thr).1 this.2⟩
+
+example : initiate [0] [[0], [1], [2]] 2 [] [[1], [1], [2]] = some [[0], [1], [2]] ∧
+    initiate [0] [[0], [1], [2]] 2 [] [[1], [1], [1]] = none := by decide
 
 /-! ### Bitcoin: every input carries the signature made for it -/
 
